@@ -26,7 +26,7 @@ ASSUMPTIONS = [
     "CPython FIFO ready-queue order is kept; only suspension patterns and external completion order are permuted",
 ]
 BOUNDS = {"quick": dict(sources=2, events_per_source=2, deviation_bound=1),
-          "thorough": dict(sources=3, events_per_source=3, deviation_bound=2, note="deviation bound 1 for patterns with >= 5 events")}
+          "thorough": dict(sources=3, events_per_source=3, deviation_bound=2, note="deviation bound 1 for patterns with >= 4 events")}
 EXPLANATION = ("implementation-level model checking: every explored trace is an execution of the real dispatcher; "
                "traces_validated_against_impl counts executions re-run from their recorded choices with identical "
                "observations")
@@ -202,8 +202,8 @@ def oracle(sc, r):
 def run_scenario(sc, tier):
     res = Result()
     bound = BOUNDS[tier]["deviation_bound"]
-    if sum(len(x) for x in sc[0]) >= 5:
-        bound = 1  # the largest timestamp patterns are explored at deviation bound 1 (stated in the evidence bounds)
+    if sum(len(x) for x in sc[0]) >= 4:
+        bound = 1  # the larger timestamp patterns are explored at deviation bound 1 (stated in the evidence bounds)
     first = True
     for choices, tr, r in explore(make_run(sc, res.states), bound):
         res.executions += 1
